@@ -316,12 +316,12 @@ var allKinds = map[string][]string{"AllObjects": {"object"}, "AllLists": {"list"
 func init() {
 	register(&Property{
 		ID: "C14",
-		Explanation: "Loop-shape and kind-test rules over every typed/untyped view (All*, ForEach*, Map*, Reduce*, Filter*, *Slice) of both containers. Each method body is reduced to a normal form " +
-			"(kind tests + guarded actions) by a structured walk of the single range loop over the receiver's own spine; the rules then require: no early exit, exactly one action per iteration, guarded exactly by the ok of a test " +
-			"for the kind that the callback/slice signature (or the frozen All* name table) demands, the value handed on being the tested value (typed) or the element's getVal() (untyped), the range key as index/key. " +
+		Explanation: "Loop-shape and kind-test rules over every typed/untyped view (All*, ForEach*, Map*, Reduce*, Filter*, *Slice) of both containers, decided on the symbolic path normal form (SX): each method must be one range loop over the receiver's own spine (no early exit); " +
+			"every path through one iteration is classified by the kind tests it passed, and must perform exactly the family's action — one callback call / append / Add / Set / accumulator update with the tested value (typed) or the element's getVal() (untyped) and the range key — " +
+			"when the element has the kind the callback/slice signature (or the frozen All* name table) demands, and nothing at all otherwise (so a predicate is never invoked for elements of another kind). " +
 			"Range over a slice visits in index order, each element once (Go semantics). Behaviour of callbacks and map iteration order are outside.",
 		Rules: []Rule{
-			{ID: "C14.R1", Doc: "loop shape: one range over the receiver's own spine, no break/return/goto/continue-skips, exactly one callback/append/Add/Set/accumulate per iteration", Run: c14Run},
+			{ID: "C14.R1", Doc: "loop shape: one range over the receiver's own spine, no early exit; exactly the family's action per selected element, none otherwise", Run: c14Run},
 			{ID: "C14.R2", Doc: "kind test equals the kind demanded by the signature (or All* name table); AllX returns false exactly on a non-K element and true after the loop", Run: func(c *Ctx) {}},
 		},
 	})
@@ -344,161 +344,148 @@ func c14Run(c *Ctx) {
 				c.Ob("C14.R1", name, token.NoPos).Missing("no implementation")
 				continue
 			}
-			sl := spineLoops(c, fd)
-			all := allLoops(fd)
-			ob := c.Ob("C14.R1", name+"/loop", fd.Pos())
-			if len(sl) != 1 || len(all) != 1 || sl[0].Depth != 0 {
-				ob.Fail("expected exactly one loop, a range over the receiver's own spine; found %d loops of which %d range the spine", len(all), len(sl))
-				continue
-			}
 			loops++
-			l := sl[0]
-			if why := loopEarlyExit(l.Stmt, true); why != "" && fam != "All" {
-				ob.Fail("%s: elements after (or around) it are not visited exactly once", why)
-				continue
-			}
-			if fam == "All" {
-				if why := loopEarlyExitNoReturn(l.Stmt); why != "" {
-					ob.Fail("%s inside an All* predicate loop", why)
-					continue
-				}
-			}
-			if l.Stmt.Tok == token.ASSIGN {
-				ob.Fail("range assigns to pre-existing variables")
-				continue
-			}
-			ob.Ok("single range over %s, no early exit", exprStr(l.Stmt.X))
-			nf := c.loopNormalForm(l.Stmt.Body)
-			if len(nf.Undecided) > 0 {
-				c.Ob("C14.R1", name+"/body", l.Stmt.Pos()).Undecided("loop body outside the understood vocabulary: %s", strings.Join(nf.Undecided, "; "))
-				continue
-			}
-			c14Family_(c, ct, fd, m, fam, l, nf, name)
+			c14Method(c, ct, fd, m, fam, name)
 		}
 	}
 	c.R.Floor("C14.R1", loops, 56)
 }
 
-func loopEarlyExitNoReturn(loop ast.Stmt) string {
-	// like loopEarlyExit but tolerating return (All* predicates return false from inside the loop)
-	why := ""
-	rs := loop.(*ast.RangeStmt)
-	inspectNoLit(rs.Body, func(n ast.Node) bool {
-		if b, ok := n.(*ast.BranchStmt); ok {
-			if b.Tok == token.BREAK || b.Tok == token.GOTO || b.Label != nil {
-				why = b.Tok.String()
-			}
+// c14Elem classifies a term relative to the loop's current element: "raw" (the field), "val" (its getVal()), "".
+func (v *sxView) elemForm(t Term, l *LoopRec) string {
+	isElem := func(e Term) bool {
+		if l.Value != nil && isParamTerm(e, l.Value) {
+			return true
 		}
-		switch n.(type) {
-		case *ast.ForStmt, *ast.RangeStmt:
-			if n != ast.Node(rs) {
-				why = "nested loop"
-			}
-		}
-		return true
-	})
-	return why
-}
-
-// guardOK: guard consists exactly of the positive ok of test kt (plus, optionally, extra atoms returned for the caller).
-func guardAtoms(c *Ctx, g []gAtom) (oks []types.Object, negOks []types.Object, others []gAtom) {
-	for _, a := range g {
-		if id, ok := a.Expr.(*ast.Ident); ok {
-			if o := c.obj(id); o != nil {
-				if _, isVar := o.(*types.Var); isVar && types.Identical(o.Type().Underlying(), types.Typ[types.Bool]) {
-					if a.Neg {
-						negOks = append(negOks, o)
-					} else {
-						oks = append(oks, o)
-					}
-					continue
-				}
-			}
-		}
-		others = append(others, a)
+		ix, ok := e.(TIndex)
+		return ok && v.isRecvSpine(ix.X) && l.Key != nil && isParamTerm(ix.I, l.Key)
 	}
-	return
+	if isElem(t) {
+		return "raw"
+	}
+	if e, ok := v.valueOf(t); ok && isElem(e) {
+		return "val"
+	}
+	return ""
 }
 
-func findTest(nf *loopNF, ok types.Object) *kindTest {
-	for _, t := range nf.Tests {
-		if t.Ok == ok && ok != nil {
-			return t
+// kindOfTest: the kind identified by testing operand (an element form) against T, "" if the test identifies no kind.
+func (v *sxView) kindOfTest(op Term, T types.Type, l *LoopRec) string {
+	form := v.elemForm(op, l)
+	k := v.c.kindOfType(T)
+	if form == "" || k == "" {
+		return ""
+	}
+	_, isBasic := T.(*types.Basic)
+	_, isPtr := T.(*types.Pointer)
+	switch {
+	case isBasic && form == "val":
+		return k
+	case isPtr && form == "raw":
+		return k
+	case !isBasic && !isPtr:
+		return k
+	}
+	return ""
+}
+
+// testedValue: t is the value bound by a successful test of the element: op.(T)#0 or op.(T); returns op, T.
+func testedValue(t Term) (Term, types.Type, bool) {
+	switch x := t.(type) {
+	case TProj:
+		if a, ok := x.X.(TAssert); ok && x.K == 0 {
+			return a.X, a.To, true
+		}
+	case TAssert:
+		return x.X, x.To, true
+	}
+	return nil, nil, false
+}
+
+func unpack(args []Term) []Term {
+	if len(args) == 1 {
+		if pack, ok := args[0].(TLit); ok && pack.Node == nil {
+			return pack.Elts
 		}
 	}
-	return nil
+	return args
 }
 
-func c14Family_(c *Ctx, ct *Cont, fd *ast.FuncDecl, m *types.Func, fam string, l spineLoop, nf *loopNF, name string) {
+func c14Method(c *Ctx, ct *Cont, fd *ast.FuncDecl, m *types.Func, fam, name string) {
 	sig := m.Type().(*types.Signature)
-	r1 := func(suffix string) *Ob { return c.Ob("C14.R1", name+"/"+suffix, l.Stmt.Pos()) }
-	r2 := func(suffix string) *Ob { return c.Ob("C14.R2", name+"/"+suffix, l.Stmt.Pos()) }
-
-	if fam == "All" {
-		want := allKinds[m.Name()]
-		if want == nil {
-			r2("kind").Undecided("All* predicate %s is not in the frozen name->kind table", m.Name())
-			return
-		}
-		// actions: exactly one `return false`, guarded by the negated ok of one test per wanted kind, nothing else
-		if len(nf.Actions) != 1 || nf.Actions[0].Kind != "return" {
-			r1("action").Fail("All* loop body must consist of kind tests and a single `return false`; found %d actions", len(nf.Actions))
-			return
-		}
-		ret := nf.Actions[0].Stmt.(*ast.ReturnStmt)
-		if len(ret.Results) != 1 || !c.isConstBool(ret.Results[0], false) {
-			r1("action").Fail("the return inside the loop is not `return false`")
-			return
-		}
-		oks, negOks, others := guardAtoms(c, nf.Actions[0].Guard)
-		if len(oks) != 0 || len(others) != 0 {
-			r2("guard").Fail("`return false` is guarded by something other than failed kind tests")
-			return
-		}
-		got := map[string]bool{}
-		for _, o := range negOks {
-			kt := findTest(nf, o)
-			if kt == nil {
-				r2("guard").Fail("guard variable is not the ok of a kind test on the element")
-				return
-			}
-			k := c.testKind(kt, l.Value)
-			if k == "" {
-				r2("guard").Fail("kind test %s.(%s) does not identify a kind of the range element", exprStr(kt.Operand), shortType(kt.T))
-				return
-			}
-			got[k] = true
-		}
-		okKinds := len(got) == len(want) && len(negOks) == len(want)
-		for _, k := range want {
-			if !got[k] {
-				okKinds = false
-			}
-		}
-		if !okKinds {
-			r2("guard").Fail("%s returns false when the element fails tests for kinds %v; the property demands exactly %v", m.Name(), keysOf(got), want)
-			return
-		}
-		r2("guard").Ok("returns false exactly when the element is none of %v", want)
-		// after the loop: return true, and nothing else returns
-		rets := returnsOf(fd.Body)
-		last, _ := fd.Body.List[len(fd.Body.List)-1].(*ast.ReturnStmt)
-		if len(rets) == 2 && last != nil && len(last.Results) == 1 && c.isConstBool(last.Results[0], true) {
-			r2("after-loop").Ok("`return true` follows the loop (vacuously true on the empty list); no other return")
-		} else {
-			r2("after-loop").Fail("expected exactly the in-loop `return false` and a final `return true`; found %d returns", len(rets))
-		}
+	r1 := func(suffix string) *Ob { return c.Ob("C14.R1", name+"/"+suffix, fd.Pos()) }
+	r2 := func(suffix string) *Ob { return c.Ob("C14.R2", name+"/"+suffix, fd.Pos()) }
+	paths, why := c.runPaths(fd)
+	if why != "" {
+		r1("loop").Undecided("body outside the path vocabulary: %s", why)
 		return
 	}
+	v := c.view(fd)
+	// the main path (after the loop) and the loop
+	var main *Path
+	var loop *LoopRec
+	var exits []*Path // paths that leave from inside the loop
+	for _, p := range paths {
+		li := -1
+		for i, s := range p.Steps {
+			if s.Kind == "loop" {
+				if li >= 0 {
+					r1("loop").Fail("more than one loop")
+					return
+				}
+				li, loop = i, s.Loop
+			}
+		}
+		if li < 0 {
+			r1("loop").Fail("a path bypasses the loop: expected exactly one loop, a range over the receiver's own spine")
+			return
+		}
+		if li == len(p.Steps)-1 {
+			if main != nil {
+				r1("loop").Fail("more than one path after the loop")
+				return
+			}
+			main = p
+		} else {
+			exits = append(exits, p)
+		}
+	}
+	if main == nil || loop == nil {
+		r1("loop").Fail("expected exactly one loop, a range over the receiver's own spine")
+		return
+	}
+	if loop.Range == nil || !v.isRecvSpine(loop.Over) {
+		r1("loop").Fail("the loop does not range over the receiver's own spine")
+		return
+	}
+	if fam != "All" && len(exits) != 0 {
+		r1("loop").Fail("%s from inside the loop: elements after it are not visited", exits[0].End)
+		return
+	}
+	for _, ip := range loop.Iter {
+		if ip.End == "break" {
+			r1("loop").Fail("break: elements after it are not visited exactly once")
+			return
+		}
+	}
+	r1("loop").Ok("single range over the receiver's spine, no early exit")
 
+	if fam == "All" {
+		c14All(c, v, m, loop, main, exits, name)
+		return
+	}
 	// element kind demanded by the signature
 	var wantT types.Type
-	var cbParam *types.Var
+	var cbObj types.Object
 	for i := 0; i < sig.Params().Len(); i++ {
-		if fs, ok := sig.Params().At(i).Type().Underlying().(*types.Signature); ok {
-			cbParam = sig.Params().At(i)
-			if fs.Params().Len() > 0 {
-				wantT = fs.Params().At(fs.Params().Len() - 1).Type()
+		if fs, ok := sig.Params().At(i).Type().Underlying().(*types.Signature); ok && fs.Params().Len() > 0 {
+			wantT = fs.Params().At(fs.Params().Len() - 1).Type()
+		}
+	}
+	for _, f := range fd.Type.Params.List {
+		for _, nm := range f.Names {
+			if _, ok := c.typeOf(f.Type).Underlying().(*types.Signature); ok {
+				cbObj = c.Info.Defs[nm]
 			}
 		}
 	}
@@ -517,278 +504,341 @@ func c14Family_(c *Ctx, ct *Cont, fd *ast.FuncDecl, m *types.Func, fam string, l
 		r2("kind").Undecided("element type %s is not one of the kinds", shortType(wantT))
 		return
 	}
-	// the callback parameter object inside the implementation
-	var cbObj types.Object
-	if cbParam != nil {
-		idx := 0
-		for _, f := range fd.Type.Params.List {
-			for _, nm := range f.Names {
-				if _, ok := c.typeOf(f.Type).Underlying().(*types.Signature); ok {
-					cbObj = c.Info.Defs[nm]
-				}
-				idx++
+	isCb := func(t Term) (*TCall, bool) {
+		call, ok := t.(TCall)
+		if !ok || call.Fun != nil || cbObj == nil || !isParamTerm(call.Dyn, cbObj) {
+			return nil, false
+		}
+		return &call, true
+	}
+	// the accumulator / result of the family
+	var acc types.Object // Reduce, Slice: loop-carried local that is returned
+	var result Term      // Map, Filter: fresh container that is returned
+	switch fam {
+	case "Reduce", "Slice":
+		lv, ok := TLoop{}, false
+		if main.End == "return" && len(main.Vals) == 1 {
+			lv, ok = main.Vals[0].(TLoop)
+		}
+		if !ok || lv.ID != loop.ID {
+			r1("action").Fail("the returned value is not the variable the loop accumulates into")
+			return
+		}
+		acc = lv.Obj
+		init, has := loop.Init[acc]
+		if fam == "Reduce" {
+			var initParam types.Object
+			if len(fd.Type.Params.List) > 0 && len(fd.Type.Params.List[0].Names) > 0 {
+				initParam = c.Info.Defs[fd.Type.Params.List[0].Names[0]]
+			}
+			good := (has && isParamTerm(init, initParam)) || (!has && acc == initParam)
+			c.Ob("C14.R1", name+"/accumulator", fd.Pos()).Check(good, "accumulator starts from the initial argument and is the returned value", "accumulator is not initialised from the first parameter or not returned")
+		} else {
+			mk, ok := init.(TBuiltin)
+			if !has || !ok || mk.Name != "make" {
+				r1("action").Fail("the result slice is not created fresh by make before the loop")
+				return
 			}
 		}
+	case "Map", "Filter":
+		if main.End != "return" || len(main.Vals) != 1 || !freshEmptyContainer(c, main.Vals[0], ct.IsList) {
+			r1("action").Fail("the result is not a fresh empty container created before the loop")
+			return
+		}
+		result = main.Vals[0]
+	case "ForEach":
+		if main.End != "return" || len(main.Vals) != 1 || !v.isEgo(main.Vals[0]) {
+			r1("action").Fail("ForEach does not return the registered ego")
+			return
+		}
 	}
-	// exactly one action
-	if len(nf.Actions) != 1 {
-		r1("action").Fail("expected exactly one action per iteration, found %d", len(nf.Actions))
+	for _, s := range main.Effects() {
+		if s.Kind == "loop" {
+			continue
+		}
+		if s.Kind == "call" && s.Call != nil && s.Call.Fun != nil && (s.Call.Fun.Name() == ctorName(ct.IsList) || s.Call.Fun.Name() == "Init") {
+			continue
+		}
+		r1("action").Fail("effect outside the loop: %s", c.stepStr(s))
 		return
 	}
-	act := nf.Actions[0]
-	oks, negOks, others := guardAtoms(c, act.Guard)
-	if len(negOks) != 0 {
-		r2("guard").Fail("action is guarded by a failed kind test")
-		return
-	}
-	// element value expected by the action
-	var elemVal types.Object // typed: the val of the test
-	if untyped {
-		if len(oks) != 0 {
+	nSel := 0
+	for _, ip := range loop.Iter {
+		// classify by kind tests; remember the tested value; collect predicate decisions
+		selKind, sawTest := "", false
+		var predCalls []Cond
+		bad := ""
+		for _, cd := range ip.Conds() {
+			if op, T, isTest := kindTestOf(cd.T); isTest {
+				k := v.kindOfTest(op, T, loop)
+				if k == "" {
+					bad = "kind test " + c.termStr(cd.T) + " does not identify a kind of the current element"
+					break
+				}
+				sawTest = true
+				if cd.Truth {
+					if selKind != "" {
+						bad = "two kind tests succeed on one path"
+						break
+					}
+					selKind = k
+					if !types.Identical(T, wantT) && !untyped {
+						bad = "tested type " + shortType(T) + " differs from the signature's element type " + shortType(wantT)
+					}
+				}
+				continue
+			}
+			if _, ok := isCb(cd.T); ok && fam == "Filter" {
+				predCalls = append(predCalls, cd)
+				continue
+			}
+			bad = "decision on " + c.termStr(cd.T) + ": not every element of the kind is processed alike"
+			break
+		}
+		if bad != "" {
+			r2("guard").Fail("%s", bad)
+			return
+		}
+		if untyped && sawTest {
 			r2("guard").Fail("untyped view filters elements by a kind test")
 			return
 		}
-	} else {
-		if len(oks) != 1 {
-			r2("guard").Fail("typed view must be guarded by exactly one kind test, found %d", len(oks))
+		selected := untyped || selKind == wantKind
+		if !untyped && selKind != "" && selKind != wantKind {
+			r2("guard").Fail("the view selects elements of kind %q, but the signature demands %q", selKind, wantKind)
 			return
 		}
-		kt := findTest(nf, oks[0])
-		if kt == nil {
-			r2("guard").Fail("guard variable is not the ok of a kind test")
-			return
-		}
-		if k := c.testKind(kt, l.Value); k != wantKind {
-			r2("guard").Fail("kind test %s.(%s) selects kind %q, but the signature demands %q", exprStr(kt.Operand), shortType(kt.T), k, wantKind)
-			return
-		}
-		if !types.Identical(kt.T, wantT) {
-			r2("guard").Fail("tested type %s differs from the signature's element type %s", shortType(kt.T), shortType(wantT))
-			return
-		}
-		elemVal = kt.Val
-	}
-	isElem := func(e ast.Expr) bool {
-		if untyped {
-			return c.elemForm(e, l.Value) == "val"
-		}
-		return elemVal != nil && c.obj(e) == elemVal
-	}
-	isCb := func(e ast.Expr) (*ast.CallExpr, bool) {
-		call, ok := unparen(e).(*ast.CallExpr)
-		if !ok || cbObj == nil || c.obj(call.Fun) != cbObj {
-			return nil, false
-		}
-		return call, true
-	}
-	// callback argument convention: (elem) or (rangeKey, elem)
-	cbArgsOK := func(call *ast.CallExpr, accFirst types.Object) string {
-		args := call.Args
-		if accFirst != nil {
-			if len(args) != 2 || c.obj(args[0]) != accFirst {
-				return "accumulator is not threaded as the first argument"
+		isElemVal := func(t Term) bool {
+			if untyped {
+				return v.elemForm(t, loop) == "val"
 			}
-			args = args[1:]
+			op, T, ok := testedValue(t)
+			return ok && types.Identical(T, wantT) && v.kindOfTest(op, T, loop) == wantKind
 		}
-		switch len(args) {
-		case 1:
-			if !isElem(args[0]) {
-				return "callback does not receive the tested element value / getVal() of the element"
+		cbArgsOK := func(call *TCall, accFirst bool) string {
+			args := call.Args
+			if accFirst {
+				if len(args) != 2 || !sameTerm(args[0], TLoop{acc, loop.ID}) {
+					return "accumulator is not threaded as the first argument"
+				}
+				args = args[1:]
 			}
-		case 2:
-			if l.Key == nil || c.obj(args[0]) != l.Key {
-				return "first callback argument is not the range key (index / field name)"
+			switch len(args) {
+			case 1:
+				if !isElemVal(args[0]) {
+					return "callback does not receive the tested element value / getVal() of the element"
+				}
+			case 2:
+				if loop.Key == nil || !isParamTerm(args[0], loop.Key) {
+					return "first callback argument is not the range key (index / field name)"
+				}
+				if !isElemVal(args[1]) {
+					return "callback does not receive the tested element value / getVal() of the element"
+				}
+			default:
+				return "unexpected callback arity"
 			}
-			if !isElem(args[1]) {
-				return "callback does not receive the tested element value / getVal() of the element"
-			}
-		default:
-			return "unexpected callback arity"
+			return ""
 		}
-		return ""
-	}
-	// Filter: guard has one extra atom = positive callback(elem)
-	if fam == "Filter" {
-		if len(others) != 1 || others[0].Neg {
-			r2("guard").Fail("Filter action must be guarded by the predicate (positive), found %d extra guard atoms", len(others))
-			return
-		}
-		pc, ok := isCb(others[0].Expr)
-		if !ok {
-			r2("guard").Fail("extra guard atom is not a call of the predicate parameter")
-			return
-		}
-		if why := cbArgsOK(pc, nil); why != "" {
-			r2("guard").Fail("predicate: %s", why)
-			return
-		}
-		if !untyped {
-			// short-circuit order: the kind test must be evaluated before the predicate is invoked
-			first := act.Guard[0]
-			if id, isId := first.Expr.(*ast.Ident); !isId || first.Neg || c.obj(id) != oks[0] {
-				r2("guard").Fail("the predicate is invoked before the kind test has succeeded: it is called for elements of other kinds (with a zero value) as well")
+		effs := ip.Effects()
+		if !selected {
+			if len(effs) != 0 {
+				r1("action").Fail("an element that does not have the selected kind still causes %s (e.g. the predicate is invoked before the kind test succeeded)", c.stepStr(effs[0]))
 				return
 			}
-		}
-	} else if len(others) != 0 {
-		r2("guard").Fail("action has an extra guard condition %s: not every element of the kind is processed", exprStr(others[0].Expr))
-		return
-	}
-	r2("guard").Ok("action guarded exactly by the kind test for %q%s", map[bool]string{true: "any (no test)", false: wantKind}[untyped], map[bool]string{true: " and the predicate", false: ""}[fam == "Filter"])
-
-	// the action itself
-	resultVar := func(e ast.Expr) types.Object { // local initialised before the loop
-		o := c.obj(e)
-		if o == nil || o.Pos() > l.Stmt.Pos() || o.Pos() < fd.Body.Pos() {
-			if o != nil && fd.Type.Results != nil { // named result
-				for _, f := range fd.Type.Results.List {
-					for _, nm := range f.Names {
-						if c.Info.Defs[nm] == o {
-							return o
-						}
-					}
+			if acc != nil {
+				if end, ok := ip.Env[acc]; ok && !sameTerm(end, TLoop{acc, loop.ID}) {
+					r1("action").Fail("the accumulator changes for an element of another kind")
+					return
 				}
 			}
-			return nil
+			continue
 		}
-		return o
-	}
-	fail := func(why string) { r1("action").Fail("%s", why) }
-	switch fam {
-	case "ForEach":
-		es, ok := act.Stmt.(*ast.ExprStmt)
-		if !ok {
-			fail("action is not a call of the callback")
-			return
-		}
-		call, ok := isCb(es.X)
-		if !ok {
-			fail("action is not a call of the callback parameter")
-			return
-		}
-		if why := cbArgsOK(call, nil); why != "" {
-			fail(why)
-			return
-		}
-	case "Map":
-		es, ok := act.Stmt.(*ast.ExprStmt)
-		call, ok2 := (*ast.CallExpr)(nil), false
-		if ok {
-			call, ok2 = unparen(es.X).(*ast.CallExpr)
-		}
-		if !ok2 {
-			fail("action is not result.Add/Set(callback(...))")
-			return
-		}
-		sel, ok := unparen(call.Fun).(*ast.SelectorExpr)
-		if !ok || resultVar(sel.X) == nil {
-			fail("action is not a method call on the result container")
-			return
-		}
-		callee := c.callee(call)
-		var inner ast.Expr
-		if ct.IsList {
-			if callee == nil || callee.Name() != "Add" || len(call.Args) != 1 {
-				fail("list Map must Add exactly one value per selected element")
+		nSel++
+		fail := func(w string) { r1("action").Fail("%s", w) }
+		switch fam {
+		case "ForEach":
+			if len(effs) != 1 || effs[0].Kind != "call" {
+				fail("a selected element does not cause exactly one callback call")
 				return
 			}
-			inner = call.Args[0]
-		} else {
-			if callee == nil || callee.Name() != "Set" || len(call.Args) != 2 {
-				fail("object Map must Set exactly one pair per selected field")
+			call, ok := isCb(*effs[0].Call)
+			if !ok {
+				fail("the action is not a call of the callback parameter")
 				return
 			}
-			if l.Key == nil || c.obj(call.Args[0]) != l.Key {
-				fail("object Map stores the result under something other than the range key")
+			if w := cbArgsOK(call, false); w != "" {
+				fail(w)
 				return
 			}
-			inner = call.Args[1]
-		}
-		ic, ok := isCb(inner)
-		if !ok {
-			fail("stored value is not the callback's result")
-			return
-		}
-		if why := cbArgsOK(ic, nil); why != "" {
-			fail(why)
-			return
-		}
-	case "Filter":
-		es, ok := act.Stmt.(*ast.ExprStmt)
-		call, ok2 := (*ast.CallExpr)(nil), false
-		if ok {
-			call, ok2 = unparen(es.X).(*ast.CallExpr)
-		}
-		if !ok2 {
-			fail("action is not result.Add(element)")
-			return
-		}
-		sel, ok := unparen(call.Fun).(*ast.SelectorExpr)
-		callee := c.callee(call)
-		if !ok || resultVar(sel.X) == nil || callee == nil || callee.Name() != "Add" || len(call.Args) != 1 || !isElem(call.Args[0]) {
-			fail("Filter must Add exactly the tested element to the result")
-			return
-		}
-	case "Reduce":
-		as, ok := act.Stmt.(*ast.AssignStmt)
-		if !ok || as.Tok != token.ASSIGN || len(as.Lhs) != 1 || len(as.Rhs) != 1 {
-			fail("action is not `acc = f(acc, x)`")
-			return
-		}
-		acc := resultVar(as.Lhs[0])
-		call, ok := isCb(as.Rhs[0])
-		if acc == nil || !ok {
-			fail("action is not `acc = f(acc, x)` on an accumulator declared before the loop")
-			return
-		}
-		if why := cbArgsOK(call, acc); why != "" {
-			fail(why)
-			return
-		}
-		c14ReduceFrame(c, fd, acc, l, name)
-	case "Slice":
-		as, ok := act.Stmt.(*ast.AssignStmt)
-		if !ok || as.Tok != token.ASSIGN || len(as.Lhs) != 1 || len(as.Rhs) != 1 {
-			fail("action is not `s = append(s, x)`")
-			return
-		}
-		s := resultVar(as.Lhs[0])
-		call, ok := unparen(as.Rhs[0]).(*ast.CallExpr)
-		if s == nil || !ok || !c.isBuiltin(call, "append") || len(call.Args) != 2 || c.obj(call.Args[0]) != s || !isElem(call.Args[1]) || call.Ellipsis.IsValid() {
-			fail("typed slice must append exactly the tested element value")
-			return
-		}
-		rets := returnsOf(fd.Body)
-		if len(rets) != 1 || len(rets[0].Results) != 1 || c.obj(rets[0].Results[0]) != s {
-			fail("the slice that is appended to is not what is returned")
-			return
+		case "Map":
+			if len(effs) != 2 {
+				fail("a selected element does not cause exactly: one callback call, one Add/Set of its result")
+				return
+			}
+			call, ok := isCb(*effs[0].Call)
+			if !ok {
+				fail("the first action is not a call of the callback parameter")
+				return
+			}
+			if w := cbArgsOK(call, false); w != "" {
+				fail(w)
+				return
+			}
+			st := effs[1].Call
+			if st == nil || st.Fun == nil || st.Recv == nil || !sameTerm(st.Recv, result) {
+				fail("the callback's result is not stored into the result container")
+				return
+			}
+			args := unpack(st.Args)
+			if ct.IsList {
+				if st.Fun.Name() != "Add" || len(args) != 1 || !sameTerm(args[0], *effs[0].Call) {
+					fail("list Map must Add exactly the callback's result per selected element")
+					return
+				}
+			} else {
+				if st.Fun.Name() != "Set" || len(args) != 2 || loop.Key == nil || !isParamTerm(args[0], loop.Key) || !sameTerm(args[1], *effs[0].Call) {
+					fail("object Map must Set the callback's result under the range key")
+					return
+				}
+			}
+		case "Filter":
+			if len(predCalls) != 1 || len(effs) < 1 {
+				fail("a selected element is not decided by exactly one predicate call")
+				return
+			}
+			pc, _ := isCb(predCalls[0].T)
+			if w := cbArgsOK(pc, false); w != "" {
+				fail("predicate: " + w)
+				return
+			}
+			if predCalls[0].Truth {
+				if len(effs) != 2 {
+					fail("an accepted element does not cause exactly one Add")
+					return
+				}
+				st := effs[1].Call
+				args := []Term(nil)
+				if st != nil {
+					args = unpack(st.Args)
+				}
+				if st == nil || st.Fun == nil || st.Fun.Name() != "Add" || st.Recv == nil || !sameTerm(st.Recv, result) || len(args) != 1 || !isElemVal(args[0]) {
+					fail("Filter must Add exactly the tested element to the result")
+					return
+				}
+			} else if len(effs) != 1 {
+				fail("a rejected element still changes the result")
+				return
+			}
+		case "Reduce":
+			end, ok := ip.Env[acc]
+			call, isC := (*TCall)(nil), false
+			if ok {
+				call, isC = isCb(end)
+			}
+			if !isC || len(effs) != 1 {
+				fail("a selected element does not update the accumulator by exactly acc = f(acc, x)")
+				return
+			}
+			if w := cbArgsOK(call, true); w != "" {
+				fail(w)
+				return
+			}
+		case "Slice":
+			end, ok := ip.Env[acc]
+			ap, isA := TBuiltin{}, false
+			if ok {
+				ap, isA = end.(TBuiltin)
+			}
+			if !isA || ap.Name != "append" || len(ap.Args) != 2 || !sameTerm(ap.Args[0], TLoop{acc, loop.ID}) || !isElemVal(ap.Args[1]) || len(effs) != 0 {
+				fail("a selected element is not appended exactly once as its tested value")
+				return
+			}
 		}
 	}
-	r1("action").Ok("%s: one action per iteration on the selected element, value = %s, key = range key where applicable", fam, map[bool]string{true: "element.getVal()", false: "tested value"}[untyped])
+	if nSel == 0 {
+		r1("action").Fail("no iteration path processes an element of the selected kind")
+		return
+	}
+	r2("guard").Ok("the action is performed exactly for elements of kind %s, nothing happens for the others", map[bool]string{true: "any (no test)", false: wantKind}[untyped])
+	r1("action").Ok("%s: one action per selected element, value = %s, key = range key where applicable", fam, map[bool]string{true: "element.getVal()", false: "tested value"}[untyped])
 }
 
-func c14ReduceFrame(c *Ctx, fd *ast.FuncDecl, acc types.Object, l spineLoop, name string) {
-	ob := c.Ob("C14.R1", name+"/accumulator", l.Stmt.Pos())
-	// acc is initialised from the `initial` parameter and returned
-	var initParam types.Object
-	if fd.Type.Params != nil && len(fd.Type.Params.List) > 0 && len(fd.Type.Params.List[0].Names) > 0 {
-		initParam = c.Info.Defs[fd.Type.Params.List[0].Names[0]]
+func c14All(c *Ctx, v *sxView, m *types.Func, loop *LoopRec, main *Path, exits []*Path, name string) {
+	r1 := func(suffix string) *Ob { return c.Ob("C14.R1", name+"/"+suffix, loop.Node.Pos()) }
+	r2 := func(suffix string) *Ob { return c.Ob("C14.R2", name+"/"+suffix, loop.Node.Pos()) }
+	want := allKinds[m.Name()]
+	if want == nil {
+		r2("kind").Undecided("All* predicate %s is not in the frozen name->kind table", m.Name())
+		return
 	}
-	initOK := false
-	for _, s := range fd.Body.List {
-		if s == ast.Stmt(l.Stmt) {
-			break
+	wantSet := map[string]bool{}
+	for _, k := range want {
+		wantSet[k] = true
+	}
+	if main.End != "return" || len(main.Vals) != 1 || !isConstBoolTerm(simplify(main.Vals[0]), true) || len(main.Effects()) != 1 {
+		r2("after-loop").Fail("`return true` does not follow the loop (vacuous truth on the empty list)")
+		return
+	}
+	for _, ip := range loop.Iter {
+		if len(ip.Effects()) != 0 {
+			r1("action").Fail("All* loop has an effect")
+			return
 		}
-		if as, ok := s.(*ast.AssignStmt); ok && len(as.Lhs) == 1 && len(as.Rhs) == 1 && c.obj(as.Lhs[0]) == acc {
-			initOK = c.obj(as.Rhs[0]) == initParam && initParam != nil
+		passed := map[string]bool{}
+		tested := map[string]bool{}
+		for _, cd := range ip.Conds() {
+			op, T, isTest := kindTestOf(cd.T)
+			k := ""
+			if isTest {
+				k = v.kindOfTest(op, T, loop)
+			}
+			if k == "" {
+				r2("guard").Fail("decision %s is not a kind test of the current element", c.termStr(cd.T))
+				return
+			}
+			tested[k] = true
+			if cd.Truth {
+				passed[k] = true
+			}
+		}
+		isWanted := false
+		for k := range passed {
+			if wantSet[k] {
+				isWanted = true
+			} else {
+				r2("guard").Fail("%s tests for kind %q, the property demands exactly %v", m.Name(), k, want)
+				return
+			}
+		}
+		switch ip.End {
+		case "fall", "continue":
+			if !isWanted {
+				r2("guard").Fail("an element that passed none of the tests for %v lets the loop continue", want)
+				return
+			}
+		case "return":
+			if len(ip.Vals) != 1 || !isConstBoolTerm(simplify(ip.Vals[0]), false) {
+				r1("action").Fail("the return inside the loop is not `return false` (it would end the check at the first matching element)")
+				return
+			}
+			if isWanted {
+				r2("guard").Fail("an element of a wanted kind makes %s return false", m.Name())
+				return
+			}
+			for _, k := range want {
+				if !tested[k] {
+					r2("guard").Fail("`return false` is reached without testing for kind %q", k)
+					return
+				}
+			}
+		default:
+			r1("action").Fail("%s inside an All* loop", ip.End)
+			return
 		}
 	}
-	if acc == initParam {
-		initOK = true
-	}
-	rets := returnsOf(fd.Body)
-	retOK := len(rets) == 1 && len(rets[0].Results) == 1 && c.obj(rets[0].Results[0]) == acc
-	ob.Check(initOK && retOK, "accumulator starts from the initial argument and is the returned value", "accumulator is not initialised from the first parameter or not returned")
+	r2("guard").Ok("returns false exactly when the element is none of %v", want)
+	r2("after-loop").Ok("`return true` follows the loop (vacuously true on the empty list)")
 }
 
 func (c *Ctx) isConstBool(e ast.Expr, v bool) bool {
